@@ -34,6 +34,8 @@ SCHEMES = [
 NAMINGS = [("M", "M"), ("M", "core"), ("pkg.core", "core"), ("pkg.sub.mod", "mod_x"), ("corelib", "core")]
 K_DUP = "C16-python-duplicate-in"
 K_NOOC = "C16-load-not-checked-without-oc"
+K_FOREIGN = "C16-library-of-another-module-referenced"    # c16-fix-3
+FOREIGN_MODULE = "othermod"
 for _s in SCHEMES:
     assert sorted(_s, key=lambda x: x.encode()) == _s
 
@@ -73,7 +75,7 @@ def render(rec, names, variant, root):
         d = os.path.join(root, "src", names[i - 1])
         os.makedirs(d, exist_ok=True)
         kind = rec["kinds"][i - 1]
-        if kind == "both":
+        if kind in ("both", "foreign"):
             base = ["#pragma once", "class X%d {" % i, "__published:", "  X%d() {}" % i,
                     "  int fx%d() { return %d; }" % (i, i), "};"]
         elif kind == "funcs":          # only free functions, no type at all
@@ -118,8 +120,9 @@ def interrogate_libs(rec, names, root, module="M", backend=("-python-native",), 
     incs = []
     for nm in names[:n]:
         incs += ["-I", "../src/" + nm]
-    for nm in names[:n]:
-        r = run.run_tool("interrogate", list(backend) + ["-module", module, "-library", nm,
+    for li, nm in enumerate(names[:n]):
+        lib_module = FOREIGN_MODULE if rec["kinds"][li] == "foreign" else module
+        r = run.run_tool("interrogate", list(backend) + ["-module", lib_module, "-library", nm,
                                          "-od", prefix + nm + ".in", "-oc", prefix + nm + ".cxx"] + incs +
                          ["../src/%s/%s_base.h" % (nm, nm), "../src/%s/%s.h" % (nm, nm)],
                          cwd=out, timeout=120, outputs=(prefix + nm + ".in",))
@@ -236,6 +239,7 @@ def replay_graph(ctx, rec, root, tier):
     out = os.path.join(root, "out")
     exp = expected(rec, names, naming)
     bad, events, nrun = [], [], 0
+    cls = [K_FOREIGN] if "foreign" in rec["kinds"] else []
     arglists = [[names[i - 1] + ".in" for i in perm] for perm in orders_for(rec, tier)]
     # the same database named twice (also under another spelling): still every library once
     first = arglists[0]
@@ -254,20 +258,20 @@ def replay_graph(ctx, rec, root, tier):
             rec["kinds"], rec["g"], names[:rec["n"]], naming[0], naming[1], ins)
         if r.timed_out:
             bad.append(("interrogate_module did not finish within %ds (%s)" % (4 * MODULE_TIMEOUT, what),
-                        dict(case, observed="timeout")))
+                        dict(case, observed="timeout"), cls))
             break
         if r.rc != 0 or not r.outputs[oc]:
             bad.append(("interrogate_module exit %s / output present=%s on loadable databases (%s)" % (
-                r.rc, r.outputs[oc], what), dict(case, stderr=r.stderr[-1500:])))
+                r.rc, r.outputs[oc], what), dict(case, stderr=r.stderr[-1500:]), cls))
             continue
         got = project(open(os.path.join(out, oc)).read(), r.stderr)
         if got != exp:
             diff = {f: (exp[f], got[f]) for f in exp if exp[f] != got[f]}
             bad.append(("%s: expected %s, generated module has %s" % (
                 what, {f: v[0] for f, v in diff.items()}, {f: v[1] for f, v in diff.items()}),
-                dict(case, observed=got, stderr=r.stderr[-1500:])))
+                dict(case, observed=got, stderr=r.stderr[-1500:]), cls))
         ev, nhook = project_trace(tr, names, rec["kinds"])
-        events.append((ev, nhook))
+        events.append((ev, nhook, cls))
     return nrun, bad, events, dict(names=names[:rec["n"]], variant=variant)
 
 
@@ -298,11 +302,14 @@ def python_backend(ctx, rec, root):
         raise MachineryError("interrogate -python failed on the foreign library: " + r.stderr[-800:])
     want, foreign = [], RE_PYWRAP_DEF.findall(open(os.path.join(out, "PForeign.cxx")).read())
     per_lib = {}
-    for nm in names[:n]:
-        per_lib[nm] = RE_PYWRAP_DEF.findall(open(os.path.join(out, "P%s.cxx" % nm)).read())
-        want += per_lib[nm]
     for i, nm in enumerate(names[:n]):
-        if (rec["kinds"][i] in ("both", "funcs")) != bool(per_lib[nm]):
+        per_lib[nm] = RE_PYWRAP_DEF.findall(open(os.path.join(out, "P%s.cxx" % nm)).read())
+        if rec["kinds"][i] == "foreign":
+            foreign = foreign + per_lib[nm]
+        else:
+            want += per_lib[nm]
+    for i, nm in enumerate(names[:n]):
+        if (rec["kinds"][i] in ("both", "funcs", "foreign")) != bool(per_lib[nm]):
             raise MachineryError("interrogate -python: library %s of kind %s has wrappers %s" % (nm, rec["kinds"][i], per_lib[nm]))
     if not foreign:
         raise MachineryError("the foreign library has no python wrappers")
@@ -404,64 +411,73 @@ def build_and_import(ctx, rec, root):
 
 
 # ---------------------------------------------------------------------------------------------
-def failure_cases(ctx, rec, root, tier):
-    """A database that fails to load => exit != 0 and no output file (also when a stale output
-    file of an earlier run exists)."""
+BACKEND_ARGV = {"c": ["-c"], "python": ["-python"], "native": ["-python-native"], "none": []}
+
+
+def failure_cases(ctx, cases, root, tier):
+    """Replay of ModuleFail: every back-end option x number of arguments x position of the failing database x
+    kind of failure x (-oc requested, stale output present): exit != 0 and no output file."""
     names = SCHEMES[0]
-    n = rec["n"]
+    rec = dict(n=3, kinds=["both", "both", "both"], g=[[2], [3], []])
     render(rec, names, 0, root)
     interrogate_libs(rec, names, root)
     out = os.path.join(root, "out")
-    good = [nm + ".in" for nm in names[:n]]
+    good = [nm + ".in" for nm in names[:3]]
     data = open(os.path.join(out, good[0]), "rb").read()
     body = data.rstrip()
-    bads = [("missing", None), ("empty", b""), ("garbage-binary", bytes((i * 37 + 11) % 256 for i in range(300))),
-            ("garbage-text", b"this is not an interrogate database\n"),
-            ("wrong-version", b"1 9 9\n" + data.split(b"\n", 1)[1])]
-    step = 5 if tier == "quick" else 1
-    for cut in sorted(set(list(range(0, len(body) - 1, step)) + [len(body) - 1])):
-        bads.append(("truncated@%d" % cut, data[:cut]))
+    content = {"missing": None, "empty": b"", "garbage-binary": bytes((i * 37 + 11) % 256 for i in range(300)),
+               "garbage-text": b"this is not an interrogate database\n",
+               "wrong-version": b"1 9 9\n" + data.split(b"\n", 1)[1]}
+    files = {}
+    for kind, c in content.items():
+        files[kind] = ["bad_%s.in" % kind.replace("-", "_")]
+        if c is not None:
+            open(os.path.join(out, files[kind][0]), "wb").write(c)
+    os.makedirs(os.path.join(out, "bad_directory.in"))
+    files["directory"] = ["bad_directory.in"]
+    cuts = sorted({len(body) // 4, len(body) // 2, len(body) - 1})
+    files["truncated"] = []
+    for cut in cuts:
+        fn = "bad_trunc%d.in" % cut
+        open(os.path.join(out, fn), "wb").write(data[:cut])
+        files["truncated"].append(fn)
     items = []
-    for bi, (kind, content) in enumerate(bads):
-        fn = "bad%d.in" % bi
-        if content is not None:
-            open(os.path.join(out, fn), "wb").write(content)
-        poss = range(n) if not kind.startswith("truncated") else [bi % n]
-        for pos in poss:
-            for mode in (["-python-native"], ["-python"]) if not kind.startswith("truncated") else (["-python-native"],):
-                items.append((kind, fn, pos, mode, len(items), True))
-    # no output file requested at all: a database that fails to load is still an error
-    for bi, (kind, content) in enumerate(bads[:5]):
-        for mode in (["-python-native"], ["-python"], []):
-            items.append((kind, "bad%d.in" % bi, bi % n, mode, len(items), False))
+    for c in cases:
+        for fn in files[c["kind"]]:
+            items.append((c, fn, len(items)))
+    # the truncation sweep (every prefix in the thorough tier) on the -python-native back-end
+    step = 5 if tier == "quick" else 1
+    for cut in range(0, len(body) - 1, step):
+        fn = "bad_sweep%d.in" % cut
+        open(os.path.join(out, fn), "wb").write(data[:cut])
+        items.append((dict(backend=["native", "c", "none", "python"][cut % 4], nargs=3, pos=cut % 3 + 1, kind="truncated@%d" % cut,
+                           oc=True, stale=cut % 2 == 0), fn, len(items)))
 
     def one(it):
-        kind, fn, pos, mode, k, with_oc = it
-        ins = list(good)
-        ins[pos] = fn
+        c, fn, k = it
+        ins = good[:c["nargs"]]
+        ins[c["pos"] - 1] = fn
         oc = "F_%d.cxx" % k
-        stale = (k % 2 == 0)
-        if stale:
+        if c["stale"]:
             open(os.path.join(out, oc), "w").write("// stale output of an earlier run\n")
-        argv = mode + ["-module", "M", "-library", "M"] + (["-oc", oc] if with_oc else []) + ins
+        argv = BACKEND_ARGV[c["backend"]] + ["-module", "M", "-library", "M"] + (["-oc", oc] if c["oc"] else []) + ins
         r = run.run_tool("interrogate_module", argv, cwd=out, timeout=MODULE_TIMEOUT, outputs=(oc,))
         if r.timed_out:
             r = run.run_tool("interrogate_module", argv, cwd=out, timeout=4 * MODULE_TIMEOUT, outputs=(oc,))
-        left = r.outputs[oc] if with_oc else False        # without -oc the stale file is none of the tool's business
+        left = r.outputs[oc] if c["oc"] else False
         ok = (not r.timed_out) and r.rc not in (0, None) and r.signal == 0 and not left
-        return ok, dict(kind=kind, position=pos, mode=(mode or ["(default -c)"])[0], argv=argv, rc=r.rc, signal=r.signal,
-                        timed_out=r.timed_out, output_left=left, stale_output_before=stale, with_oc=with_oc,
+        return ok, dict(case=c, argv=argv, rc=r.rc, signal=r.signal, timed_out=r.timed_out, output_left=left,
                         stderr=r.stderr[-600:])
     res = run.pmap(one, items)
-    nbad = 0
     for ok, info in res:
         if not ok:
-            nbad += 1
-            ctx.violation("a database that fails to load (%s at position %d, %s%s): exit %s, signal %s, timeout %s, "
-                          "output file left=%s" % (info["kind"], info["position"], info["mode"],
-                                                   "" if info["with_oc"] else ", no -oc", info["rc"],
-                                                   info["signal"], info["timed_out"], info["output_left"]), info,
-                          classes=[] if info["with_oc"] else [K_NOOC])
+            c = info["case"]
+            ctx.violation("a database that fails to load (%s, argument %d of %d, back-end %s, %s): exit %s, signal %s, timeout %s, "
+                          "output file left=%s" % (c["kind"], c["pos"], c["nargs"],
+                                                   "none given" if c["backend"] == "none" else "-" + BACKEND_ARGV[c["backend"]][0].lstrip("-"),
+                                                   "-oc requested" + (" (stale file present)" if c["stale"] else "") if c["oc"] else "no -oc",
+                                                   info["rc"], info["signal"], info["timed_out"], info["output_left"]), info,
+                          classes=[] if c["oc"] else [K_NOOC])
     return len(res)
 
 
@@ -508,15 +524,15 @@ def dup_export_cases(ctx, root):
             bad.append(("Base exported by Lb and (forcetype) Lc, Derived in La, .in order %s: every library once, the same "
                         "order in all lists and La after Lb or Lc expected; generated module has %s" % (ins, lists),
                         dict(argv=ins, observed=got, stderr=r.stderr[-800:])))
-        events.append(project_trace(tr, names, ["both", "both", "both"]))
+        events.append(project_trace(tr, names, ["both", "both", "both"]) + ([],))
     return len(list(itertools.permutations(names))), bad, events
 
 
 # ---------------------------------------------------------------------------------------------
 def validate_traces(ctx, all_events):
-    if not sum(nh for ev, nh in all_events):
+    if not sum(nh for ev, nh, cls in all_events):
         raise MachineryError("C16: the hooks produced no ModDep/ModPlace events (hooks missing from the build?)")
-    all_events = [ev for ev, nh in all_events]
+    all_events = [ev for ev, nh, cls in all_events if not any(c in ctx.known for c in cls)]
     groups = [all_events[i::NCPU] for i in range(NCPU)]
     groups = [g for g in groups if g]
 
@@ -573,7 +589,7 @@ def run_check(ctx):
             seen.add(key); recs.append(r)
     # sum over the number m of libraries with classes: C(n,m) * 3^(n-m) kind assignments x 2^(m(m-1)) digraphs
     from math import comb
-    want = sum(comb(n, m) * 3 ** (n - m) * 2 ** (m * (m - 1)) for n in range(1, 4 if tier == "quick" else 5)
+    want = sum(comb(n, m) * 4 ** (n - m) * 2 ** (m * (m - 1)) for n in range(1, 4 if tier == "quick" else 5)
                for m in range(n + 1))
     if len(recs) != want:
         raise MachineryError("expected %d (kinds, digraph) cases from TLC, got %d" % (want, len(recs)))
@@ -639,8 +655,8 @@ def run_check(ctx):
         all_events += events
         if any(rec["g"]) or any(k != "both" for k in rec["kinds"]):
             nontrivial += 1
-        for desc, payload in bad:
-            ctx.violation(desc, payload)
+        for desc, payload, cls in bad:
+            ctx.violation(desc, payload, classes=cls)
     ctx.cov["evaluations"] += nruns
     ctx.cov["distinct_nontrivial"] = nontrivial
     ctx.cov["traces_validated_against_impl"] += nruns
@@ -689,7 +705,8 @@ def run_check(ctx):
     # ---- acyclic samples: build and import -----------------------------------------------
     acyc = [r for r in recs if not is_cyclic(r) and r["n"] >= 2 and any(r["g"]) and all(k == "both" for k in r["kinds"])]
     acyc.sort(key=lambda r: (-sum(len(x) for x in r["g"]), ghash(r)))
-    mixed = [r for r in recs if not is_cyclic(r) and r["n"] == 3 and any(r["g"]) and "funcs" in r["kinds"]]
+    mixed = [r for r in recs if not is_cyclic(r) and r["n"] == 3 and any(r["g"]) and "funcs" in r["kinds"]
+             and "foreign" not in r["kinds"]]
     mixed.sort(key=ghash)
     pick = acyc[:3] + acyc[3::max(1, len(acyc) // (4 if tier == "quick" else 20))][:(4 if tier == "quick" else 20)] + mixed[:3]
 
@@ -713,14 +730,21 @@ def run_check(ctx):
     ctx.cov["traces_validated_against_impl"] += nimp
 
     # ---- failure path ------------------------------------------------------------------------
-    nfail = 0
-    fsel = [r for r in recs if r["n"] == 2 and r["g"] == [[2], []]] + \
-           [r for r in recs if r["n"] == 3 and r["g"] == [[2], [3], [1]]] + \
-           [r for r in recs if r["n"] == 2 and r["kinds"] == ["funcs", "types"]]
-    for i, rec in enumerate(fsel):
-        nfail += failure_cases(ctx, rec, os.path.join(ctx.tmp, "fail%d" % i), tier)
-    if not nfail:
-        raise MachineryError("no failure-path cases were run")
+    fdump = os.path.join(ctx.tmp, "fail.ndjson")
+    fres = tlc.run("ModuleFailMC", "ModuleFail", env={"VERIF_DUMP": fdump}, timeout=600)
+    ctx.add_tlc(fres)
+    if fres.verdict == "invariant":
+        raise MachineryError("ModuleFail: %s violated in the model" % fres.violated)
+    tlc.must_ok(fres, "failure path")
+    fseen, fcases = set(), []
+    for r in tlc.read_dump(fdump):
+        key = json.dumps(r, sort_keys=True)
+        if key not in fseen:
+            fseen.add(key); fcases.append(r)
+    fcases.sort(key=lambda r: json.dumps(r, sort_keys=True))
+    if len(fcases) != 504:
+        raise MachineryError("ModuleFail: expected 504 failure-path cases, got %d" % len(fcases))
+    nfail = failure_cases(ctx, fcases, os.path.join(ctx.tmp, "fail"), tier)
     ctx.notes["failure_path_cases"] = nfail
     ctx.cov["evaluations"] += nfail
     ctx.cov["traces_validated_against_impl"] += nfail
